@@ -1,16 +1,26 @@
-/* Tailored scenario for the stuck world found in NoteModel (C09_no_stuck): P -> c -> g.
-   T1: nsync_note_free (c).   T2: nsync_note_free (P); nsync_note_free (g).
-   Each note is freed by exactly one thread and named by no other call. */
+/* note_f9 (F11 shape), with the call/ret announcements that
+   replay/note_replay.ml needs.  P -> c -> g.
+   T1: nsync_note_free (c).   T2: nsync_note_free (P); nsync_note_free (g). */
 #include "nsync.h"
 #include "vrt.h"
 #include <stdio.h>
-static nsync_note P, c, g;
-static void t1 (void *a) { nsync_note_free (c); }
-static void t2 (void *a) { nsync_note_free (P); vrt_count ("freeP_returned"); nsync_note_free (g); }
+static nsync_note note[3];   /* P = 0, c = 1, g = 2 (allocation order = the model's ids) */
+static void x_new (int i, int par) {
+	vrt_note ("call %d new %d none", vrt_self (), par);
+	note[i] = nsync_note_new (par < 0 ? NULL : note[par], nsync_time_no_deadline);
+	vrt_note ("ret %d %d", vrt_self (), note[i] != NULL);
+}
+static void x_free (int i) {
+	vrt_note ("call %d free %d", vrt_self (), i);
+	nsync_note_free (note[i]);
+	vrt_note ("ret %d -", vrt_self ());
+}
+static void t1 (void *a) { x_free (1); }
+static void t2 (void *a) { x_free (0); vrt_count ("freeP_returned"); x_free (2); }
 int main (void) {
-	P = nsync_note_new (NULL, nsync_time_no_deadline);
-	c = nsync_note_new (P, nsync_time_no_deadline);
-	g = nsync_note_new (c, nsync_time_no_deadline);
+	x_new (0, -1);
+	x_new (1, 0);
+	x_new (2, 1);
 	vrt_thread ("T1", t1, NULL);
 	vrt_thread ("T2", t2, NULL);
 	vrt_run ();
